@@ -351,7 +351,9 @@ def sweep(tier):
         for first in (0, 1, 0x7fffffff, 0x80000000, 0xfffffeff, 0xffffff00, 0xffffffef, 0xfffffff0, 0xfffffff1,
                       0xfffffffe, 0xffffffff):
             w = first.to_bytes(4, bo)
-            for second in (0, 1, 0xffffffff, 0x100000000, 0xffffffffffffffff):
+            # the 64-bit value may be any number - also one that, as a *first* word, would be a reserved escape or the 64-bit escape itself
+            for second in (0, 1, 0xfffffeff, 0xffffff00, 0xffffff80, 0xffffffef, 0xfffffff0, 0xfffffffe, 0xffffffff, 0x100000000,
+                           0xffffffff00000000, 0xfffffff000000000, 0xffffffffffffffff):
                 data = w + second.to_bytes(8, bo) + b'\x99'
                 cases.append({'k': 'ilen', 'le': le, 'data': data})
                 if first == 0xffffffff:
@@ -472,6 +474,9 @@ def strategy(tier):
         bo = 'little' if le else 'big'
         first = draw(st.one_of(st.integers(0, 0xffffffff), st.integers(0xfffffef0, 0xffffffff)))
         data = first.to_bytes(4, bo) + draw(st.binary(max_size=9))
+        if first == 0xffffffff and draw(st.booleans()):
+            # a 64-bit length whose value looks like a 32-bit escape
+            data = first.to_bytes(4, bo) + draw(st.integers(0xfffffe00, 0x1000000ff)).to_bytes(8, bo) + draw(st.binary(max_size=2))
         return {'k': 'ilen', 'le': le, 'data': data}
 
     @st.composite
